@@ -297,4 +297,75 @@ theorem hookFold_ok (l : List Nat) :
       exact h1
     · rw [h2]; split <;> rfl
 
+/-! ### records are never deleted by a message -/
+
+theorem getProvider_setProvider_some {s s' : State} {p : Provider} (h : setProvider s p = .ok s') :
+    ∃ q, getProvider s' p.addr = some q := by
+  unfold setProvider at h
+  split at h <;> simp only [pure_eq_ok, gopanic_ne_ok] at h
+  · subst h
+    refine ⟨p, ?_⟩
+    unfold getProvider
+    simp only [Tbl.get_set_eq]
+  · subst h
+    unfold getProvider
+    cases hg : s.provActive.get p.addr with
+    | some q => exact ⟨q, rfl⟩
+    | none => exact ⟨p, by simp only [Tbl.get_set_eq]⟩
+
+theorem getNode_setNode_some {s s' : State} {n : Node} (h : setNode s n = .ok s') :
+    ∃ q, getNode s' n.addr = some q := by
+  unfold setNode at h
+  split at h <;> simp only [pure_eq_ok, gopanic_ne_ok] at h
+  · subst h
+    refine ⟨n, ?_⟩
+    unfold getNode
+    simp only [Tbl.get_set_eq]
+  · subst h
+    unfold getNode
+    cases hg : s.nodeActive.get n.addr with
+    | some q => exact ⟨q, rfl⟩
+    | none => exact ⟨n, by simp only [Tbl.get_set_eq]⟩
+
+theorem provRegister_exists {s s' : State} {frm : Addr} {n i w d : Bytes} (h : provRegister s frm n i w d = .ok s') :
+    ∃ q, getProvider s' frm = some q := by
+  unfold provRegister at h
+  simp only [bind_eq_ok, pure_eq_ok, require_eq_ok] at h
+  obtain ⟨_, _, s1, h1, s2, h2, rfl⟩ := h
+  exact getProvider_setProvider_some h2
+
+theorem provUpdate_exists {s s' : State} {frm : Addr} {n i w d : Bytes} {st : Status} (hk : KeysOK s)
+    (h : provUpdate s frm n i w d st = .ok s') : ∃ q, getProvider s' frm = some q := by
+  unfold provUpdate at h
+  simp only [bind_eq_ok, pure_eq_ok, orReject_eq_ok] at h
+  obtain ⟨p, hp, s3, h3, rfl⟩ := h
+  have := getProvider_setProvider_some h3
+  rw [provUpdated_addr, hk.getProvider hp] at this
+  exact this
+
+theorem nodeRegister_exists {s s' : State} {frm : Addr} {gb hr : Coins} {url : Bytes} (h : nodeRegister s frm gb hr url = .ok s') :
+    ∃ q, getNode s' frm = some q := by
+  unfold nodeRegister at h
+  simp only [bind_eq_ok, pure_eq_ok, require_eq_ok] at h
+  obtain ⟨_, _, _, _, _, _, s1, h1, s2, h2, rfl⟩ := h
+  exact getNode_setNode_some h2
+
+theorem nodeUpdate_exists {s s' : State} {frm : Addr} {gb hr : Option Coins} {url : Bytes} (hk : KeysOK s)
+    (h : nodeUpdate s frm gb hr url = .ok s') : ∃ q, getNode s' frm = some q := by
+  unfold nodeUpdate at h
+  simp only [bind_eq_ok, pure_eq_ok, require_eq_ok, orReject_eq_ok] at h
+  obtain ⟨_, _, _, _, n, hn, s1, h1, rfl⟩ := h
+  have := getNode_setNode_some h1
+  rw [nodeUpdated_addr, hk.getNode hn] at this
+  exact this
+
+theorem nodeStatus_exists {s s' : State} {frm : Addr} {st : Status} (hk : KeysOK s)
+    (h : nodeStatus s frm st = .ok s') : ∃ q, getNode s' frm = some q := by
+  unfold nodeStatus at h
+  simp only [bind_eq_ok, pure_eq_ok, orReject_eq_ok] at h
+  obtain ⟨n, hn, s5, h5, rfl⟩ := h
+  have := getNode_setNode_some h5
+  simp only [hk.getNode hn] at this
+  exact this
+
 end Hub.Model
